@@ -735,8 +735,21 @@ func (w *tableWorld) react(cl *tclient, t *pt.Table) {
 			// everybody submits at every turn, twice, from separate tasks, without thinking
 			a, amt := w.chooseWager(cl.st, gs, p)
 			w.c.Fault("F2_simultaneous_actions")
+			isCur := gs.Status.CurrentPlayer == gi
 			for k := 0; k < 2; k++ {
-				simrt.Go(0, "stampede."+cl.id, func() { w.act(cl.id, a, amt, "client") })
+				first := k == 0
+				simrt.Go(0, "stampede."+cl.id, func() {
+					err := w.act(cl.id, a, amt, "client")
+					if err != nil && first && isCur && (a == "bet" || a == "raise") {
+						// the player whose turn it is keeps responding after a refused amount
+						for _, fb := range []string{"check", "call", "fold", "allin"} {
+							if hasStr(p.AllowedActions, fb) {
+								w.act(cl.id, fb, 0, "client")
+								break
+							}
+						}
+					}
+				})
 			}
 			return
 		}
@@ -1478,9 +1491,10 @@ func (w *tableWorld) extenderTask() {
 			if r := rosterOf(tb); len(r) > 0 {
 				id = r[st.Draw(len(r))]
 			}
-			w.mon.extensionInvoke(key, int64(d))
+			ec := w.mon.extensionInvoke(key, int64(d))
 			ret, err = w.eng.PlayerExtendActionDeadline(id, d)
 			after = w.eng.GetTable().State.CurrentActionEndAt
+			w.mon.extensionReturn(ec)
 		})
 		if !called {
 			continue
